@@ -5,4 +5,5 @@ CONSTANTS
   PairModes = {"number", "time"}
   PairAssets = {"thumbs"}
   SingleAll = TRUE
+  BigTimeline = FALSE
 INVARIANTS TypeOK InvAccept InvSensitive InvIndep Emit
